@@ -7,6 +7,7 @@ group, numeric unseen values, injected NaN, empty and single-row frames.  Observ
 cell of the probed feature is a fitted label, or the exception class.
 """
 import math
+import re
 
 import numpy as np
 
@@ -75,13 +76,14 @@ def make_probes(rng, st, train):
             probes.append(("Float64", small, "Float64"))
         else:
             probes.append(("int64", ints, "int64"))
-        # pd.NA in a nullable column: unknown missing value, or missing values grouped with numbers
-        # (with NaN as its OWN modality numpy.select refuses the masked comparisons: reported apart)
-        if not nan_known or not nan_own:
-            k2 = rng.choice(["Int64", "Float64"])
-            cells = list(ints[:4]) if k2 == "Int64" else list(small[:4])
-            cells.insert(rng.randint(0, len(cells)), NAN)
-            probes.append((k2 + "+NA", cells, k2))
+        # pd.NA in a nullable column.  With NaN as its OWN modality numpy.select refuses the masked
+        # comparisons on /repo (known finding nullable_pdNA_with_nan_own_group_typeerror): those
+        # probes carry their own tag and are judged by the python-side oracle only
+        k2 = rng.choice(["Int64", "Float64"])
+        cells = list(ints[:4]) if k2 == "Int64" else list(small[:4])
+        cells.insert(rng.randint(0, len(cells)), NAN)
+        where = "/nan-own-group" if (nan_known and nan_own) else ("/nan-merged" if nan_known else "")
+        probes.append((k2 + "+NA" + where, cells, k2))
     else:
         known = qual_probes(rng, st)
         probes.append(("known", list(known), None))
@@ -190,6 +192,23 @@ def oracle_c05(st_json, cells, outs, fitted=True):
     return True, ""
 
 
+def known_sigs_c05(msg):
+    """narrow: only the pd.NA probes of a feature whose NaN is its own group, only numpy.select's
+    TypeError on the masked comparisons"""
+    if (re.match(r"\[probe (Int64|Float64)\+NA/nan-own-group, ", msg)
+            and "non-assertion exception" in msg
+            and "TypeError: invalid entry 0 in condlist" in msg):
+        return ["nullable_pdNA_with_nan_own_group_typeerror"]
+    # NaN merged into a numeric group: `df_feature[nans] = nan_value` writes the group's leader (a
+    # non-integral float, inf, or an integral float beyond int64) into the Int64 column
+    if (re.match(r"\[probe Int64\+NA/nan-merged, ", msg)
+            and "non-assertion exception" in msg
+            and re.search(r"TypeError: Invalid value '[^']*' for dtype 'Int64'"
+                          r"|OverflowError: Python int too large to convert to C long", msg)):
+        return ["nullable_Int64_pdNA_leader_not_representable"]
+    return []
+
+
 class C05(B.C04):
     pid = "C05"
     verdict_fn = "verdict05"
@@ -211,9 +230,8 @@ class C05(B.C04):
         "cells of a quantitative column are numbers or NaN (a float64 column)",
         "a raw value that leaks with output_dtype='float' and equals a rank cannot be told from a "
         "label by observation; the model tells them apart",
-        "pd.NA in a nullable Int64/Float64 column is probed only when missing values are unknown to the "
-        "feature or grouped with numbers (with NaN as its own modality numpy.select raises TypeError on "
-        "/repo HEAD: reported to the coordinator, not generated)",
+        "probe frames failing exactly as a recorded known finding (nullable_pdNA_with_nan_own_group_"
+        "typeerror, nullable_Int64_pdNA_leader_not_representable) are judged by the python-side oracle only",
     ] + B.C04.assumptions[:3]
 
     def corpus(self):
@@ -265,13 +283,38 @@ class C05(B.C04):
                              "exc": exc})
         return {"features": states, "runs": runs}
 
+    def run_msg(self, case, st, r):
+        ok, msg = oracle_c05(st, r["cells"], r["out"], fitted=case["cls"] != "Base")
+        if ok:
+            return None
+        return (f"[probe {r['tag']}, index {r.get('index')}] {msg}"
+                + (f" ({r['exc']})" if r.get("exc") else ""))
+
     def oracle(self, case, out):
+        """a failure that is NOT a recorded known finding is reported first"""
+        known = None
         for st, r in zip(out["features"], out["runs"]):
-            ok, msg = oracle_c05(st, r["cells"], r["out"], fitted=case["cls"] != "Base")
-            if not ok:
-                return False, (f"[probe {r['tag']}, index {r.get('index')}] {msg}"
-                               + (f" ({r['exc']})" if r.get("exc") else ""))
-        return True, ""
+            msg = self.run_msg(case, st, r)
+            if msg is not None:
+                if not known_sigs_c05(msg):
+                    return False, msg
+                known = known or msg
+        return (False, known) if known else (True, "")
+
+    def coq_shards(self, cases, outs):
+        # the model is the float64 semantics: probe frames that fail exactly as a recorded known
+        # finding (nullable-dtype glue) stay on the python side
+        outs2 = []
+        for c, o in zip(cases, outs):
+            keep = []
+            for i, (st, r) in enumerate(zip(o["features"], o["runs"])):
+                # judged on the outcome alone (hand-made states whose premises fail included)
+                msg = (f"[probe {r['tag']}, index {r.get('index')}] feature {st['name']}: transform raised "
+                       f"a non-assertion exception ({r.get('exc')})") if r["out"] == "internal" else ""
+                if not known_sigs_c05(msg):
+                    keep.append(i)
+            outs2.append(dict(o, features=[o["features"][i] for i in keep], runs=[o["runs"][i] for i in keep]))
+        return B.coq_shards_for(cases, outs2, self.verdict_fn)
 
     def signature(self, case, out):
         if "features" not in out:
@@ -288,7 +331,7 @@ class C05(B.C04):
         return f"{case['cls']}|{p['output_dtype']}|{p['dropna']}|" + ",".join(sorted(parts))
 
     def finding_signatures(self, case, out, msg):
-        return []
+        return known_sigs_c05(msg)
 
     def shrink(self, case, out, msg):
         if case["cls"] == "Base":
